@@ -181,7 +181,7 @@ func checkStrPositions(c *core.Ctx, s string, b []byte, desc string) {
 func init() {
 	core.Register(&core.Prop{
 		ID: "C09", Level: "model_checking",
-		Rule: "Exhaustive enumeration: every string length 0..3*2048+40 for each content class (ASCII, 2-, 3-, 4-byte code points; quick: ASCII and 3-byte), ASCII strings with one wide code point (2-,3-,4-byte) at every offset in [b-3,b+3] around every internal chunk boundary b; every binary length 0..3*4096+40 for four content patterns; and 18 boundary lengths at every position (struct field, first/middle/last list element, map key, map value, [][]byte element). Each case: real ToBytes, R1 parse (length prefixes count characters / octets, no chunk ends inside a code point), real ToObject, exact content equality. Distinct by construction.",
+		Rule:        "Exhaustive enumeration: every string length 0..3*2048+40 for each content class (ASCII, 2-, 3-, 4-byte code points; quick: ASCII and 3-byte), ASCII strings with one wide code point (2-,3-,4-byte) at every offset in [b-3,b+3] around every internal chunk boundary b; every binary length 0..3*4096+40 for four content patterns; and 18 boundary lengths at every position (struct field, first/middle/last list element, map key, map value, [][]byte element). Each case: real ToBytes, R1 parse (length prefixes count characters / octets, no chunk ends inside a code point), real ToObject, exact content equality. Distinct by construction.",
 		Assumptions: []string{"contents are a handful of classes per length, not all contents"},
 		Units: func(tier string) []core.Unit {
 			var us []core.Unit
@@ -285,6 +285,8 @@ func init() {
 			}})
 			return us
 		},
-		RequireCover: func(string) []string { return []string{"positions", "str-boundary", "strlen:ascii", "strlen:3byte", "binlen:zero"} },
+		RequireCover: func(string) []string {
+			return []string{"positions", "str-boundary", "strlen:ascii", "strlen:3byte", "binlen:zero"}
+		},
 	})
 }
